@@ -438,7 +438,10 @@ func Run[C any](t *testing.T, p Prop[C]) *Rec {
 		msg string
 	}
 	if v, err := strconv.Atoi(os.Getenv("VERIF_CHECKS")); err == nil && v > 0 {
-		p.Checks = v // debugging aid: override the case count
+		// debugging aid: override the case count (of one sub-check when VERIF_CHECKS_SUB names it)
+		if sub := os.Getenv("VERIF_CHECKS_SUB"); sub == "" || sub == p.Sub {
+			p.Checks = v
+		}
 	}
 	_ = flag.Set("rapid.checks", strconv.Itoa(p.Checks))
 	_ = flag.Set("rapid.seed", strconv.FormatUint(rapidSeed(p.Sub), 10))
